@@ -1,8 +1,8 @@
 SPECIFICATION TSpec
 CONSTANTS
-  FIXED = FALSE
+  FIXED = TRUE
   CHECK_LEAKS = FALSE
-INVARIANTS HeadersAtBoundaries NormalIsBasic DeferredOrdered DeferOnlyAtEnd DecoderOnlyForNormal
+INVARIANTS RefsAreOwners HeadersAtBoundaries NormalIsBasic DeferredOrdered DeferOnlyAtEnd DecoderOnlyForNormal
 PROPERTIES EofStickyT
 POSTCONDITION Accepted
 CHECK_DEADLOCK FALSE
